@@ -14,7 +14,10 @@ MISUSE = ['foreign_var_constraint', 'foreign_var_mixed_expr', 'foreign_var_objec
           'foreign_ldr', 'foreign_expectation', 'foreign_probability',
           'foreign_adapt_first', 'foreign_adapt_second', 'foreign_adapt_entry', 'foreign_concat', 'foreign_rstack', 'foreign_cstack', 'foreign_vec',
           'foreign_concat_expr', 'foreign_rvar_concat',
-          'foreign_concat_rev', 'foreign_rstack_rev', 'foreign_cstack_rev', 'foreign_vec_rev', 'foreign_concat_expr_rev', 'foreign_rvar_concat_rev']
+          'foreign_concat_rev', 'foreign_rstack_rev', 'foreign_cstack_rev', 'foreign_vec_rev', 'foreign_concat_expr_rev', 'foreign_rvar_concat_rev',
+          'foreign_var_plus_convex', 'foreign_var_plus_convex_rev', 'foreign_convex_of_var', 'foreign_convex_bound_by_var', 'foreign_convex_objective',
+          'foreign_piecewise_piece', 'foreign_piecewise_objective', 'foreign_expected_piecewise', 'foreign_scaled_convex_plus_var',
+          'objective_redefined_after_zero', 'objective_redefined_after_constant']
 
 
 @st.composite
@@ -212,6 +215,38 @@ def misuse(case):
     elif w in ('foreign_rvar_concat', 'foreign_rvar_concat_rev'):
         e = rso.concat((zB, zA)) if w.endswith('_rev') else rso.concat((zA, zB))
         mA.st(xA.sum() + e.sum() <= 100)
+    elif w == 'foreign_var_plus_convex':
+        mA.st(abs(xA) + xB <= 1)
+    elif w == 'foreign_var_plus_convex_rev':
+        mA.st(xB + rso.norm(xA) <= 1)
+    elif w == 'foreign_scaled_convex_plus_var':
+        mA.st(2 * rso.norm(xA, 1) - 3 * xB.sum() + 1 <= 4)
+    elif w == 'foreign_convex_of_var':
+        mA.st(abs(xB) <= 1)
+    elif w == 'foreign_convex_bound_by_var':
+        mA.st(abs(xA) <= xB)
+    elif w == 'foreign_convex_objective':
+        mA.min(rso.norm(xB))
+    elif w == 'foreign_piecewise_piece':
+        mA.st(rso.maxof(xA.sum(), xB.sum() + 1) <= 5)
+    elif w == 'foreign_piecewise_objective':
+        if f1 == 'ro':
+            mA.min(rso.maxof(xA.sum(), xB.sum() + 1))
+        else:
+            mA.minsup(E(rso.maxof(xA.sum(), xB.sum() + 1)), A['fs'])
+    elif w == 'foreign_expected_piecewise':
+        if f1 != 'dro' or f2 != 'dro':
+            return None
+        mA.minsup(E(xA.sum()), A['fs'])
+        mA.st(E(rso.maxof(xB.sum() + zB.sum(), xB.sum() - 1)) <= 5)
+    elif w in ('objective_redefined_after_zero', 'objective_redefined_after_constant'):
+        first = 0 if w.endswith('zero') else 2.5
+        if f1 == 'ro':
+            mA.min(first)
+            mA.min(xA.sum())
+        else:
+            mA.min(first)
+            mA.max(xA.sum())
     elif w == 'objective_redefined':
         complete(A)
         if f1 == 'ro':
@@ -260,10 +295,10 @@ class C17(Prop):
     rule = ('(isolation) two models drawn independently from the deterministic (C06), robust (C01) and dro (C03) generators are built '
             'and solved in one process in six interleavings (A B sA sB / A B sB sA / A sA B sB sA / B A sA sB sA / ... with repeated '
             'solves of A after B was built or solved): every optimum must equal that of the same model built and solved alone. '
-            '(misuse) a catalogue of 34 misuse patterns x the four ro/dro combinations of the two models x use before/after the other '
+            '(misuse) a catalogue of 45 misuse patterns x the four ro/dro combinations of the two models x use before/after the other '
             'model was solved: foreign variable / LDR / random variable / expression / constraint / uncertainty set / ambiguity set / '
             'support, expectation or probability constraint in every API position that accepts one, adapt() on a foreign random variable (first call, '
-            'after a legitimate call, entry-wise), concat/rstack/cstack/vec over two models (own operand first or last), objective redefinition, '
+            'after a legitimate call, entry-wise), concat/rstack/cstack/vec over two models (own operand first or last), convex atoms / piecewise maxima / E(piecewise) mixing a foreign variable in, objective redefinition, '
             'non-scalar objective, reading an unsolved or infeasible model, ambiguity() after constraints: each must raise no later '
             'than solve(), leaving no readable result; every foreign-object pattern has a positive control (same calls, operands of one model) that must go through. Non-trivial = isolation cases with >= 3 switches between the models, every '
             'misuse case; distinct by IR hash.')
